@@ -18,12 +18,13 @@ import (
 
 // Ctx is the context of one property run.
 type Ctx struct {
-	Prog    *core.Program
-	Pkg     *packages.Package
-	R       *core.Report
-	Tier    string
-	fo      map[string]*FO
-	bkCache map[string]*bkRun
+	Prog         *core.Program
+	Pkg          *packages.Package
+	R            *core.Report
+	Tier         string
+	fo           map[string]*FO
+	bkCache      map[string]*bkRun
+	unclassified map[string]bool
 }
 
 // Property is a registered check.
